@@ -702,6 +702,30 @@ func main() {
 		meta.Hit("snapshot-scenario")
 		meta.Hit("shape:" + shape)
 	}
+	// further Go-side history classes (snapshots with a head-chunk-less highest-ref series, failed commits)
+	reps := 1
+	if fl.Tier == "thorough" {
+		reps = 6 // the failed-commit class draws its interleavings from the PRNG
+	}
+	for k := 0; k < reps*len(gsScenarios); k++ {
+		sc := gsScenarios[k%len(gsScenarios)]
+		id := n + 1 + k
+		viol, tr, err := runGoSide(root, sc, gen.Fork(fl.Seed, id))
+		shape := "ok"
+		var errs []string
+		if err != nil {
+			shape = "harness-error"
+			errs = []string{err.Error()}
+			meta.GoViol = append(meta.GoViol, gallina.GoViolation{ID: fmt.Sprint(id), Shape: shape, What: err.Error()})
+		} else if viol != "" {
+			shape = sc.shape
+			meta.GoViol = append(meta.GoViol, gallina.GoViolation{ID: fmt.Sprint(id), Shape: shape, What: viol})
+		}
+		meta.Case(id, desc{Shape: shape, Corpus: sc.name + " (Go-side)", Cfg: sc.cfg, Fast0: sc.fast0, Trace: tr, Errs: errs})
+		meta.Evaluations++
+		meta.Hit("goside:" + sc.name)
+		meta.Hit("shape:" + shape)
+	}
 	cf.Flush()
 	meta.Write(fl.Out)
 }
